@@ -37,6 +37,8 @@ structure Uni where
   /-- `state.ReadOperand(inst.Src2, 0)` read once before the loop: the literal K of `v_madak_f32`,
       `v_fmamk_f32`, `v_fmaak_f32` (a `LiteralConstant` operand, never a VGPR) -/
   k2 : BitVec 64
+  /-- `strings.HasPrefix(inst.InstName, "v_pk_")` (consulted by CDNA3 `vop3aPostprocess` only) -/
+  isPk : Bool := false
 deriving Repr, DecidableEq
 
 def Uni.zero : Uni :=
@@ -142,6 +144,9 @@ inductive Cov where
   | crossLane
   /-- no lane loop and no operand access (`vop3aPreprocess`, `vop3aPostprocess`) -/
   | noLaneCode
+  /-- no lane loop and no operand access, translated: uniform checks and at most one `SetVCC(constant)`;
+      entry `idx` of `Gen.Lane.noLaneHandlers` (second deepening) -/
+  | constant (idx : Nat)
 deriving DecidableEq, Repr
 
 structure CovRow where
@@ -149,6 +154,15 @@ structure CovRow where
   name : String
   cov : Cov
 deriving DecidableEq, Repr
+
+/-- a handler without lane loop and without operand access (`vop3aPreprocess/Postprocess`, CDNA3 `v_cmp_f_u64`) -/
+structure NoLaneHandler where
+  arch : String
+  name : String
+  /-- the uniform condition under which the handler does not `log.Panic` -/
+  ok : Uni → Bool
+  /-- the constant handed to `state.SetVCC`, if the handler writes VCC -/
+  setVCC : Option (BitVec 64)
 
 /-! ## The lane-local view of a body -/
 
@@ -323,6 +337,17 @@ def inf (sign : BitVec 64) : Float := if BitVec.sle 0#64 sign then Float.ofBits 
 
 def nan : Float := Float.ofBits 0x7ff8000000000001
 
+/-- insertion sort of three elements, the way Go's `sort` / `slices` package sorts fewer than 12 elements
+    (`insertionSortOrdered`: `for i := 1; i < 3; i++ { for j := i; j > 0 && less(d[j], d[j-1]); j-- { swap } }`) -/
+def insertion3 {α} (lt : α → α → Bool) (a b c : α) : α × α × α :=
+  let a1 := if lt b a then b else a
+  let b1 := if lt b a then a else b
+  if lt c b1 then (if lt c a1 then (c, a1, b1) else (a1, c, b1)) else (a1, b1, c)
+
+/-- `sort.Float64s` of three elements: `less(x, y) = x < y || (isNaN(x) && !isNaN(y))` -/
+def sortFloat64s3 (a b c : Float) : Float × Float × Float :=
+  insertion3 (fun x y => decide (x < y) || (x.isNaN && !y.isNaN)) a b c
+
 end GoF
 
 /-! ## Library functions of `amd/bitops` (another package; hand-transcribed, constant bit positions) -/
@@ -343,6 +368,10 @@ def signExt (x : BitVec 64) (signBit : BitVec 64) : BitVec 64 :=
   let mask : BitVec 64 := ~~~((1#64 <<< (signBit + 1#64).toNat) - 1#64)
   let sign := (x >>> signBit.toNat) &&& 1#64
   if BitVec.ult 0#64 sign then x ||| mask else x &&& ~~~mask
+
+/-- `sort.Ints` of three elements (Go `int` = 64-bit signed) -/
+def sortInts3 (a b c : BitVec 64) : BitVec 64 × BitVec 64 × BitVec 64 :=
+  GoF.insertion3 (fun x y => BitVec.slt x y) a b c
 
 end Go
 
